@@ -38,8 +38,11 @@ type cancelScenario struct {
 }
 
 type cancelObs struct {
-	CancelReturnedMs int      `json:"cancel_returned_ms"` // -1: did not return within the bound
-	SecondCancelMs   int      `json:"second_cancel_ms"`
+	CancelReturnedMs int `json:"cancel_returned_ms"` // -1: did not return within the bound
+	SecondCancelMs   int `json:"second_cancel_ms"`
+	// point "overlap": a second Cancel is issued while the first is still waiting for a command that ignores the
+	// interrupt; how many of the commands were still alive when that second call returned (-1: not such a scenario)
+	OverlapAlive     int      `json:"overlap_alive"`
 	RunsReturned     bool     `json:"runs_returned"`
 	RunErrs          []bool   `json:"run_errs"` // per in-flight run: returned a non-nil error
 	LateRunErr       bool     `json:"late_run_err"`
@@ -106,6 +109,10 @@ func longTask(name, log, sleepTag string, sc cancelScenario) *task.Task {
 		t.Timeout = &d
 	}
 	body := fmt.Sprintf("echo start-%s >> %s; sleep %s; echo end-%s >> %s", name, log, sleepTag, name, log)
+	if sc.Point == "overlap" {
+		// a command that ignores the interrupt: it dies of the kill that follows two seconds later
+		body = fmt.Sprintf("echo start-%s >> %s; sh -c 'trap \"\" INT; exec sleep %s'; echo end-%s >> %s", name, log, sleepTag, name, log)
+	}
 	switch sc.Point {
 	case "in-before-hook":
 		t.Before = []string{body}
@@ -124,7 +131,7 @@ func cancelChild(args []string) {
 		fmt.Fprintln(os.Stderr, err)
 		os.Exit(3)
 	}
-	obs := cancelObs{CancelReturnedMs: -1, SecondCancelMs: -2}
+	obs := cancelObs{CancelReturnedMs: -1, SecondCancelMs: -2, OverlapAlive: -1}
 	sleepTag := fmt.Sprintf("30.%d", os.Getpid()) // `sleep 30.<pid>`: identifiable in the process table
 	r, err := runner.NewTaskRunner()
 	if err != nil {
@@ -159,6 +166,7 @@ func cancelChild(args []string) {
 		}
 	}
 
+	overlapDone := make(chan struct{})
 	timedCancel := func(f func()) int {
 		done := make(chan struct{})
 		t0 := time.Now()
@@ -194,6 +202,14 @@ func cancelChild(args []string) {
 			obs.Note = "tasks did not start"
 		}
 		appendLine(sc.Log, "CANCEL-CALLED")
+		if sc.Point == "overlap" {
+			go func() {
+				time.Sleep(300 * time.Millisecond)
+				r.Cancel()
+				obs.OverlapAlive = countSleepers(sleepTag)
+				close(overlapDone)
+			}()
+		}
 		obs.CancelReturnedMs = timedCancel(r.Cancel)
 		appendLine(sc.Log, "CANCEL-RETURNED")
 		if obs.CancelReturnedMs < 0 {
@@ -330,6 +346,15 @@ func cancelChild(args []string) {
 			}
 			obs.CancelReturnedMs = 0
 		} else {
+			if sc.Point == "overlap" {
+				// the second call, 300 ms into the first: when IT returns the cancellation must be complete too
+				go func() {
+					time.Sleep(300 * time.Millisecond)
+					sd.Cancel()
+					obs.OverlapAlive = countSleepers(sleepTag)
+					close(overlapDone)
+				}()
+			}
 			obs.CancelReturnedMs = timedCancel(sd.Cancel)
 			appendLine(sc.Log, "CANCEL-RETURNED")
 			if obs.CancelReturnedMs < 0 {
@@ -352,6 +377,12 @@ func cancelChild(args []string) {
 			obs.SecondCancelMs = timedCancel(sd.Cancel)
 		}
 		obs.LateRunErr = true
+	}
+	if sc.Point == "overlap" {
+		select {
+		case <-overlapDone:
+		case <-time.After(bound):
+		}
 	}
 	time.Sleep(50 * time.Millisecond)
 	// what started after the cancellation had completed?
@@ -445,6 +476,10 @@ func cancelVerdict(sc cancelScenario, obs *cancelObs, exit int, stderr string, t
 		return "interrupted runs / Schedule did not return within 6s after Cancel", "c12-run-blocks"
 	case obs.SecondCancelMs == -1:
 		return "second Cancel did not return", "c12-cancel-twice"
+	case sc.Point == "overlap" && obs.OverlapAlive > 0:
+		return fmt.Sprintf("a second Cancel, issued while the first was still waiting for a command that ignores the interrupt, returned while %d command(s) were still running", obs.OverlapAlive), "c12-second-cancel-early"
+	case sc.Point == "overlap" && obs.OverlapAlive < 0:
+		return "the second (overlapping) Cancel had not returned when the scenario ended", "c12-cancel-twice"
 	case len(obs.StartedAfter) > 0:
 		return fmt.Sprintf("commands started after cancellation: %v", obs.StartedAfter), "c12-started-after"
 	case len(obs.WaitingStarted) > 0 && sc.Mode != "sched-conderr":
@@ -487,6 +522,9 @@ func genCancelScenarios(tier string, rng *rand.Rand) []cancelScenario {
 		}
 	}
 	out = append(out, cancelScenario{Mode: "runner", Inflight: 0, Point: "before-run"})
+	// a second Cancel while the first is still in progress
+	out = append(out, cancelScenario{Mode: "runner", Inflight: 2, Point: "overlap"}, cancelScenario{Mode: "sched", Inflight: 1, Waiting: 1, Point: "overlap"},
+		cancelScenario{Mode: "sched", Inflight: 3, Waiting: 0, Point: "overlap"})
 	// histories: a run that failed during context set-up earlier; tasks with their own timeout; several
 	// pipelines on one runner
 	for _, pre := range []string{"bad-context", "up-fails"} {
